@@ -14,6 +14,8 @@ def run(ctx):
     ra = ctx.rule('R-ROUTE.awaiter', 'executor-naming awaiters assign the executor before Submit', minimum=6)
     rp = ctx.rule('R-PUBLISH', 'Store precedes SetResult (PromiseType::Drop, final_suspend)', minimum=10)
     rhd = ctx.rule('R-HEAD', 'a co_awaited Task of any head kind can be started', minimum=10)
+    rnr = ctx.rule('R-NODEREUSE', 'an object registered on a shared core is registered once and its next field is not '
+                   'used for anything else', minimum=4)
     for cfg, fb in sorted(fbs.items()):
         seen = 0
         for f in sorted(fb.fn.values(), key=lambda f: f.full):
@@ -32,3 +34,4 @@ def run(ctx):
         c05.check_awaiters(ctx, fb, ra)
         lib_core.check_publish(ctx, fb, rp)
         lib_head.check(ctx, fb, cfg, rhd, None)
+        lib_core.check_node_reuse(ctx, fb, rnr)
